@@ -43,11 +43,18 @@ def closed_form_ops(rng):
     h = gen.mk_homothety(rng, s)
     r = gen.mk_qurot(rng, st)
     m = gen.mk_moveaxis(rng, s2)
+    from furax._base.diagonal import DiagonalOperator
+    n_ = s.shape[0]
+    # entries of very different magnitude (exact powers of two): tiny but non-zero entries are invertible
+    tiny = [rng.choice([2.0 ** -40, -(2.0 ** -30), 2.0 ** 20, 1.0, 2.0 ** -60, -(2.0 ** 12)]) for _ in range(n_)]
+    dtiny = DiagonalOperator(gen.arr(tiny), axis_destination=-1, in_structure=s)
     bd = BlockDiagonalOperator({'b': d, 'a': [h, gen.mk_diagonal_first(rng, s)]})
     bd2 = BlockDiagonalOperator([r, gen.mk_hwp(rng, st) if rng.random() < 0.3 else r.T])
     return [('homothety', h, True), ('diagonal', d, True), ('diagonal-with-zeros', dz, False),
             ('identity', IdentityOperator(s), True), ('qurot', r, True), ('qurotT', r.T, True),
-            ('moveaxis', m, True), ('blockdiag', bd, True), ('diag-inverse', d.I, True)]
+            ('moveaxis', m, True), ('blockdiag', bd, True), ('diag-inverse', d.I, True),
+            ('diagonal-extreme-magnitudes', dtiny, True),
+            ('blockdiag-extreme', BlockDiagonalOperator([dtiny, [d]]), True)]
 
 
 def one_case(ctx: Ctx, stream: str, i: int) -> None:
